@@ -16,6 +16,7 @@ def c08_stats(cases, model):
     decisions = collections.Counter()      # (op kind, accepted / refused / …)
     perm_sets, mlines, streams = set(), set(), collections.Counter()
     open_at_rest = 0
+    storm = collections.Counter()
     for c in cases:
         lens.append(len(c["ops"]))
         for t in c.get("tags") or ["-"]:
@@ -26,6 +27,15 @@ def c08_stats(cases, model):
             ops[kind] += 1
             if i == "bad-op":
                 outcomes["bad-op"] += 1
+                continue
+            if kind == "storm":
+                out, msgs, mlog, opn = _sections(i)
+                outcomes["storm"] += 1
+                storm["runs"] += 1
+                storm["publishers_created"] += sum(1 for m in mlog if m.startswith("new:") and "/p/" in m)
+                storm["publishers_closed"] += sum(1 for m in mlog if m.startswith("close:") and "/p/" in m)
+                storm["publishers_open_at_rest"] += sum(1 for m in opn if "/p/" in m)
+                storm["refused"] += sum(1 for m in msgs if m.endswith("err.not_allowed"))
                 continue
             out, msgs, mlog, opn = _sections(i)
             outcomes[out[0] if out else "-"] += 1
@@ -52,14 +62,14 @@ def c08_stats(cases, model):
     return dict(verdicts=_verdict_stats(cases, model), ops=dict(ops), tags=dict(tags), outcomes=dict(outcomes),
                 messages_received=dict(replies), media_server_calls=dict(log), decisions=dict(decisions),
                 distinct_permission_sets=len(perm_sets), distinct_mline_lists=len(mlines), offers_by_stream=dict(streams),
-                observations_with_open_objects=open_at_rest,
+                observations_with_open_objects=open_at_rest, storm=dict(storm),
                 max_case_len=max(lens or [0]), mean_case_len=round(sum(lens) / max(1, len(lens)), 1))
 
 
 def c08_nontrivial(c, ms):
     """At least one publisher was created and at least one request was refused for lack of a permission / call membership."""
     impl = c.get("impl") or []
-    created = any(" new:" in (" " + i) and "/p/" in i for i in impl)
+    created = any("new:" in i and "/p/" in i for i in impl)
     refused = any("err.not_allowed" in i for i in impl)
     return created and refused
 
@@ -80,15 +90,19 @@ CONFIG = dict(
     ]],
     generated=["Perm"],
     harness=dict(pkg="signaling", test="TestVerifC08", go="go1.26"),
+    # `storm` lines (real concurrency) are not predicted by the model, only judged by the spec
+    canon=lambda s: "storm" if s.startswith("storm") else s,
     stats=c08_stats,
     nontrivial=c08_nontrivial,
     rule="real ClientSessions (3 clients, 1 internal client) in a real Hub with a real BackendServer (signed room API "
          "requests), an in-memory Nextcloud answering room joins with the permission set of the op, and a fake media "
          "server that answers at once, inside a testing/synctest bubble; cases = witness histories, "
          "permission set x stream type x m-line list x message kind matrices, P0 -> P1 revocations through participants "
-         "request / bus message / join reply, requestoffer for all room / in-call combinations, control and transient "
-         "gates, PRNG histories over all ops, malformed lines; a case is non-trivial if a publisher was created and "
-         "some request was refused with not_allowed; distinct = distinct op lists",
+         "request / bus message / join reply (thorough: all 16 x 16 publish sets x 3 channels), requestoffer for all "
+         "room / in-call combinations, control and transient gates, PRNG histories over all ops, malformed lines, and "
+         "storm runs (real goroutines: permission updates on the bus racing with offers / candidates and in-call "
+         "changes of the same session, judged by the spec on the objects open at rest); a case is non-trivial if a "
+         "publisher was created and some request was refused with not_allowed; distinct = distinct op lists",
     trusted_base=[
         "testing/synctest (go1.26): synctest.Wait() is taken as 'every goroutine of the server is blocked or done' "
         "(the harness' quiescence point)",
@@ -114,8 +128,33 @@ CONFIG = dict(
 
 MANIFEST = dict(
     text="Machine-checked Lean 4 theorems about a model of the permission and call-membership decisions of "
-         "clientsession.go / hub.go / room.go, tied by regenerated facts and a differential run of the real code.",
-    note="under construction",
-    technique="Lean 4 proof (case analysis of the decision functions, inductive invariant over all action sequences) + "
-              "regenerated facts (names, tables, canonical programs of the decision functions) + differential correspondence",
+         "clientsession.go / hub.go / room.go (hasPermissionLocked incl. old-style sessions, isSdpAllowedToSendLocked "
+         "over the list of m-line kinds, IsAllowedToSend, checkOfferTypeLocked, GetOrCreatePublisher, the revocation "
+         "goroutine, processMcuMessage's dispatch, the sendoffer path, isInSameCall, the control and transient gates, "
+         "join / leave / in-call changes): for every history of actions (permission updates, join replies, in-call "
+         "changes, requests, revocation goroutines delayed arbitrarily), every permission set, m-line list, stream type "
+         "and message kind - every created or updated publisher, every message accepted for an own publisher and every "
+         "sendoffer acted on is covered by the permission set the backend set last (a function of the history); a "
+         "session whose revocation goroutines have run has only publishers covered by its permissions; requestoffer is "
+         "honoured only for internal clients or same room + both in the call (internal recipient excepted); control "
+         "messages are delivered and transient data changes only with the permission, and are dropped resp. refused "
+         "otherwise. The model is parametrised by a configuration read from the source (names, DefaultPermissionOverrides, "
+         "MediaType bits, media-server stream types, the blocks of the revocation goroutine, how a join installs "
+         "permissions, canonical programs of 20 decision functions / switch cases); C08_code_sound evaluates that the "
+         "current tree is a configuration the theorems apply to. Tied by a differential run of real ClientSessions in a "
+         "real Hub + BackendServer (signed requests) + in-memory Nextcloud + fake media server inside a synctest bubble; "
+         "the judge evaluates the statement on every observed media-server call, delivery and open object.",
+    note="Two defects found with the harness and repaired in /repo: (fix: f538900) the revocation goroutine returned after "
+         "closing the camera publisher, the screen publisher survived the withdrawal of all permissions; (fix: 69ef016) "
+         "the permissions of a join reply were only stored, a publisher created before the join (no room is needed to "
+         "publish, sessions without permissions from the backend may publish anything) survived in a room that does not "
+         "grant the permission. Both unrepaired configurations are proved witnesses (C08_early_return_leaves_screen, "
+         "C08_join_without_sweep_leaves_publisher). Read as designed, not as defects: a screen-share offer needs "
+         "publish-screen whatever its m-lines; sendoffer needs a publish permission but no call membership; "
+         "allowsubscribeany switches the same-call rule off. Media-server calls answer within their critical section "
+         "here (slow answers: C09). Not modelled: virtual sessions, federation, gRPC peers, resumed sessions, "
+         "unshareScreen. Trusted: Lean kernel, extractor, harness, testing/synctest, fake Mcu, pion/sdp.",
+    technique="Lean 4 proof (case analysis of the decision functions, inductive invariant over all action sequences, "
+              "history function for 'as last set by the backend') + regenerated facts (names, tables, canonical "
+              "programs of the decision functions) + differential correspondence and trace validation",
 )
